@@ -272,11 +272,25 @@ func checkRunLoopBuffer(r5 *core.RuleRun, p *pipeline) {
 
 // bodyLoads returns the loads of the body field of the worker's message variable.
 func msgVarOf(recvVal ssa.Value) *ssa.Alloc {
-	// the received value is stored into the message variable
-	for _, ref := range referrers(recvVal) {
-		if st, ok := ref.(*ssa.Store); ok && st.Val == recvVal {
-			if a, ok := st.Addr.(*ssa.Alloc); ok {
-				return a
+	// the received value is stored into the message variable, possibly through the merged result variable of a helper
+	// placed at its call site
+	seen := map[ssa.Value]bool{}
+	work := []ssa.Value{recvVal}
+	for len(work) > 0 && len(seen) < 16 {
+		v := work[0]
+		work = work[1:]
+		if v == nil || seen[v] {
+			continue
+		}
+		seen[v] = true
+		for _, ref := range referrers(v) {
+			switch x := ref.(type) {
+			case *ssa.Store:
+				if a, ok := x.Addr.(*ssa.Alloc); ok && x.Val == v {
+					return a
+				}
+			case *ssa.Phi:
+				work = append(work, x)
 			}
 		}
 	}
